@@ -4,6 +4,7 @@ import (
 	"encoding/json"
 	"fmt"
 	"strings"
+	"time"
 
 	"github.com/mosaicnetworks/babble/src/config"
 	hg "github.com/mosaicnetworks/babble/src/hashgraph"
@@ -19,6 +20,9 @@ type scriptTransport struct {
 	answers map[string][]byte
 	calls   []string
 	ch      chan net.RPC
+	// answer of every peer to a JoinRequest (nil: not scripted)
+	joinAnswer *net.JoinResponse
+	joins      int
 }
 
 func (t *scriptTransport) Listen()                  {}
@@ -31,8 +35,16 @@ func (t *scriptTransport) Sync(string, *net.SyncRequest, *net.SyncResponse) erro
 func (t *scriptTransport) EagerSync(string, *net.EagerSyncRequest, *net.EagerSyncResponse) error {
 	return fmt.Errorf("not scripted")
 }
-func (t *scriptTransport) Join(string, *net.JoinRequest, *net.JoinResponse) error {
-	return fmt.Errorf("not scripted")
+func (t *scriptTransport) Join(target string, args *net.JoinRequest, resp *net.JoinResponse) error {
+	if t.joinAnswer == nil {
+		return fmt.Errorf("not scripted")
+	}
+	t.joins++
+	b, err := json.Marshal(t.joinAnswer) // through the JSON transport
+	if err != nil {
+		return err
+	}
+	return json.Unmarshal(b, resp)
 }
 func (t *scriptTransport) Close() error { return nil }
 func (t *scriptTransport) FastForward(target string, args *net.FastForwardRequest, resp *net.FastForwardResponse) error {
@@ -92,10 +104,21 @@ func safeNodeFF(n *node.Node) (err error) {
 // nodeCase: a real Node (fresh store, honest configuration, fast-sync enabled) whose peers answer
 // its FastForward requests with the given responses (nil = unreachable), in peer order.
 func (rn *runner) nodeCase(kind string, answers []*net.FastForwardResponse) {
+	rn.nodeCaseJ(kind, answers, nil)
+}
+
+// nodeCaseJ: with join != nil the victim is an OUTSIDER (its key is in no validator set: the node starts in the
+// Joining state); every peer answers its JoinRequest with `join` (an unauthenticated message of a single peer), the
+// node goes CatchingUp and then asks for a fast-forward. What the node has reason to trust is what it was configured
+// with BEFORE it talked to anybody: the known sets of the trace line and of the oracle are taken before the join.
+func (rn *runner) nodeCaseJ(kind string, answers []*net.FastForwardResponse, join *net.JoinResponse) {
 	h := rn.h
 	w := h.w
 	rn.cid++
 	self := h.genesis[0]
+	if join != nil {
+		self = w.AddKey()
+	}
 	ps := []*peers.Peer{}
 	for _, o := range h.genesis {
 		p := w.Peers[o]
@@ -108,7 +131,8 @@ func (rn *runner) nodeCase(kind string, answers []*net.FastForwardResponse) {
 	conf := config.NewDefaultConfig()
 	conf.LogLevel = "panic"
 	conf.EnableFastSync = true
-	tr := &scriptTransport{answers: map[string][]byte{}, ch: make(chan net.RPC)}
+	conf.JoinTimeout = 20 * time.Millisecond
+	tr := &scriptTransport{answers: map[string][]byte{}, ch: make(chan net.RPC), joinAnswer: join}
 	rids := []string{}
 	var byAddr = map[string]*net.FastForwardResponse{}
 	for i, p := range ps {
@@ -134,6 +158,17 @@ func (rn *runner) nodeCase(kind string, answers []*net.FastForwardResponse) {
 	}
 	c := n.VerifCore()
 	knownStr, known := rn.o.knownSets(c, gen)
+	if join != nil {
+		if n.GetState() != _state.Joining {
+			rn.stats["join-case-not-joining"]++
+			return
+		}
+		if err := n.VerifJoin(); err != nil || tr.joins == 0 || n.GetState() != _state.CatchingUp {
+			rn.stats["join-case-join-failed"]++
+			return
+		}
+		rn.stats["join-case"]++
+	}
 	d0 := rn.o.digest(c, px.commits)
 	r0 := len(px.restores)
 	err := safeNodeFF(n)
@@ -226,6 +261,32 @@ func (rn *runner) nodeCases(muts []mutation, thorough bool) {
 		l := make([]*net.FastForwardResponse, n)
 		l[rn.rng.Intn(n)] = r
 		rn.nodeCase(m.kind, l)
+	}
+	// an outsider joins through a single peer whose JoinResponse lists validators of its own making, then the same
+	// peer answers the fast-forward with a frame of exactly those validators, signed by them
+	for _, k := range []int{1, 3} {
+		r := rn.fresh()
+		if forge(r, rn.mc, forgeOpt{k: k, events: "empty", peerSets: "forged", includeKey: -1, index: 1000000}) {
+			l := make([]*net.FastForwardResponse, n)
+			evil := rn.rng.Intn(n)
+			l[evil] = r
+			jp := []*peers.Peer{}
+			for _, p := range r.Frame.Peers {
+				q := clonePeer(p)
+				// the made-up validators are all reachable at the malicious peer's own address
+				q.NetAddr = rn.h.w.Peers[rn.h.genesis[evil]].NetAddr
+				jp = append(jp, q)
+			}
+			rn.nodeCaseJ(fmt.Sprintf("join-poisoned.forged.set%d", k), l, &net.JoinResponse{FromID: jp[0].ID(), Accepted: true, AcceptedRound: 1, Peers: jp})
+		}
+	}
+	// ... and the honest version: the JoinResponse lists the real validators, everybody answers honestly
+	{
+		jp := []*peers.Peer{}
+		for _, o := range rn.h.genesis {
+			jp = append(jp, clonePeer(rn.h.w.Peers[o]))
+		}
+		rn.nodeCaseJ("join-honest.valid", all(rn.fresh()), &net.JoinResponse{FromID: jp[0].ID(), Accepted: true, AcceptedRound: 1, Peers: jp})
 	}
 	// honest answers and one forged answer with a higher block index: the highest index wins
 	if n >= 2 {
